@@ -1112,19 +1112,18 @@ func (m *membershipAllower) membershipAllowed(event PDU) error { // nolint: gocy
 	return m.membershipAllowedOther()
 }
 
-func (m *membershipAllower) membershipAllowedSelfForRestrictedJoin() error {
+func (m *membershipAllower) membershipAllowedSelfForRestrictedJoin() (effectiveJoinRule string, err error) {
 	// Special case for restricted room joins, where we will check if the membership
 	// event is signed by one of the allowed servers in the join rule content.
 
 	if err := m.roomVersionImpl.CheckRestrictedJoinsAllowed(); err != nil {
-		return errorf("restricted joins are not supported in this room version")
+		return "", errorf("restricted joins are not supported in this room version")
 	}
 
 	// In the case that the user is already joined, invited or there is no
 	// authorised via server, we should treat the join rule as if it's invite.
 	if m.oldMember.Membership == spec.Join || m.oldMember.Membership == spec.Invite || m.newMember.AuthorisedVia == "" {
-		m.joinRule.JoinRule = spec.Invite
-		return nil
+		return spec.Invite, nil
 	}
 
 	// Otherwise, we have to work out if the server that produced the join was
@@ -1137,7 +1136,7 @@ func (m *membershipAllower) membershipAllowedSelfForRestrictedJoin() error {
 		// TODO: pseudoIDs: what is a valid senderID? reject if m.newMember.AuthorisedVia != valid
 	default:
 		if _, _, err := SplitID('@', m.newMember.AuthorisedVia); err != nil {
-			return errorf("the 'join_authorised_via_users_server' contains an invalid value %q", m.newMember.AuthorisedVia)
+			return "", errorf("the 'join_authorised_via_users_server' contains an invalid value %q", m.newMember.AuthorisedVia)
 		}
 	}
 
@@ -1145,28 +1144,27 @@ func (m *membershipAllower) membershipAllowedSelfForRestrictedJoin() error {
 	// need to check. First of all, is the user joined to the room?
 	otherMember, err := m.provider.Member(spec.SenderID(m.newMember.AuthorisedVia))
 	if err != nil {
-		return errorf("failed to find the membership event for 'join_authorised_via_users_server' user %q", m.newMember.AuthorisedVia)
+		return "", errorf("failed to find the membership event for 'join_authorised_via_users_server' user %q", m.newMember.AuthorisedVia)
 	}
 	if otherMember == nil {
-		return errorf("failed to find the membership event for 'join_authorised_via_users_server' user %q", m.newMember.AuthorisedVia)
+		return "", errorf("failed to find the membership event for 'join_authorised_via_users_server' user %q", m.newMember.AuthorisedVia)
 	}
 	otherMembership, err := otherMember.Membership()
 	if err != nil {
-		return errorf("failed to find the membership status for 'join_authorised_via_users_server' user %q", m.newMember.AuthorisedVia)
+		return "", errorf("failed to find the membership status for 'join_authorised_via_users_server' user %q", m.newMember.AuthorisedVia)
 	}
 	if otherMembership != spec.Join {
-		return errorf("the nominated 'join_authorised_via_users_server' user %q is not joined to the room", m.newMember.AuthorisedVia)
+		return "", errorf("the nominated 'join_authorised_via_users_server' user %q is not joined to the room", m.newMember.AuthorisedVia)
 	}
 
 	// And secondly, does the user have the power to issue invites in the room?
 	if pl := m.userPowerLevel(spec.SenderID(m.newMember.AuthorisedVia)); pl < m.powerLevels.Invite {
-		return errorf("the nominated 'join_authorised_via_users_server' user %q does not have permission to invite (%d < %d)", m.newMember.AuthorisedVia, pl, m.powerLevels.Invite)
+		return "", errorf("the nominated 'join_authorised_via_users_server' user %q does not have permission to invite (%d < %d)", m.newMember.AuthorisedVia, pl, m.powerLevels.Invite)
 	}
 
 	// At this point all of the checks have proceeded, so continue as if
 	// the room is a public room.
-	m.joinRule.JoinRule = spec.Public
-	return nil
+	return spec.Public, nil
 }
 
 // membershipAllowedFronThirdPartyInvite determines if the member events is following
@@ -1253,13 +1251,17 @@ func (m *membershipAllower) membershipAllowedSelf() error { // nolint: gocyclo
 			m.oldMember.Membership,
 		)
 	case spec.Join:
-		if m.joinRule.JoinRule == spec.Restricted || m.joinRule.JoinRule == spec.KnockRestricted {
-			if err := m.membershipAllowedSelfForRestrictedJoin(); err != nil {
+		// The join rule that applies to this event. This is a local copy: the join rule
+		// content in the allowerContext is shared with the checks of later events.
+		joinRule := m.joinRule.JoinRule
+		if joinRule == spec.Restricted || joinRule == spec.KnockRestricted {
+			var err error
+			if joinRule, err = m.membershipAllowedSelfForRestrictedJoin(); err != nil {
 				return err
 			}
 			// If, after validating restricted joins, the room is now "public", allow.
 			// This means that transitions from knock|invite|leave to join are allowed.
-			if m.joinRule.JoinRule == spec.Public {
+			if joinRule == spec.Public {
 				return nil
 			}
 		}
@@ -1275,12 +1277,12 @@ func (m *membershipAllower) membershipAllowedSelf() error { // nolint: gocyclo
 		// A user that is not in the room (and not banned, see above) is allowed
 		// to join if the room join rules are "public", whatever their previous
 		// membership was (leave, knock, ...).
-		if m.joinRule.JoinRule == spec.Public {
+		if joinRule == spec.Public {
 			return nil
 		}
 
 		return m.membershipFailed(
-			"join rule %q forbids it", m.joinRule.JoinRule,
+			"join rule %q forbids it", joinRule,
 		)
 
 	case spec.Leave:
